@@ -1411,7 +1411,8 @@ def run(tier):
         for ff in f:
             # the re-serialisation differs because the re-parsed structure differs: when every field-level difference of this instance
             # (same variant) is an instance of a listed defect, the text difference is attributed to the same defects
-            if ff['kind'] in ('xml-stability', 'dict-stability') and ff['key'] is None:
+            # (also when the trigger walk attributed the text difference to a defect that is no longer open: the field-level causes decide)
+            if ff['kind'] in ('xml-stability', 'dict-stability') and (ff['key'] is None or not all(chk.known(k) is not None for k in ff['key'].split('+'))):
                 fam = 'xml' if ff['kind'] == 'xml-stability' else 'dict'
                 causes = [g for g in f if g['kind'] in (fam, fam + '-exception') and g.get('variant') == ff.get('variant')]
                 if causes and all(g['key'] for g in causes):
